@@ -12,7 +12,18 @@ pub mod fastq {
     use super::lib_::*;
     use super::stdspecs::*;
     use super::vx_panic;
+    use core::slice;
+    use core::iter::Iterator as StdIterator;
+    use vstd::std_specs::iter::IteratorSpec;
     verus! {
+    /// local stand-ins so that the crate's `impl Iterator for ..` / `impl iter::IntoIterator for ..` headers can be kept
+    /// verbatim: vstd's own Iterator specification protocol cannot be implemented for user types here
+    trait Iterator { type Item; #[verifier::prophetic] spec fn it_pre(&self) -> bool; fn next(&mut self) -> Option<Self::Item> requires old(self).it_pre(); }
+    mod iter {
+        use vstd::prelude::*;
+        verus! { pub(super) trait IntoIterator { type Item; type IntoIter; spec fn ii_pre(self) -> bool; fn into_iter(self) -> Self::IntoIter requires self.ii_pre(); } }
+    }
+
 //@default vis=strip
 
 //@item lib::try_opt
@@ -1042,6 +1053,76 @@ trait RecordD {
 //@body_start
         broadcast use io::resolve_law_b;
 //@end
+
+    // =============================================================================================
+    // record sets
+    // =============================================================================================
+//@item fastq::RecordSet attrs="#[derive(Default)]"
+    impl RecordSet {
+        /// every stored position describes a complete, validated record of the set's own buffer
+        spec fn wf(&self) -> bool {
+            forall|i: int| 0 <= i < self.buf_positions@.len() ==> (#[trigger] self.buf_positions@[i]).valid(self.buffer@)
+        }
+        /// number of records / i-th record as (head, seq, qual)
+        spec fn n(&self) -> int { self.buf_positions@.len() as int }
+        spec fn rec(&self, i: int) -> (Seq<u8>, Seq<u8>, Seq<u8>) {
+            let s = self.buf_positions@[i].pos.0 as int;
+            (g_head(self.buffer@, s), g_seq(self.buffer@, s), g_qual(self.buffer@, s))
+        }
+    }
+
+//@impl_open fastq::RecordSet::len
+//@fn fastq::RecordSet::len ret=r tags=C04,C20
+//@spec
+        ensures
+            [C04,C20|fastq.RecordSet.len] r == self.n(),
+//@end
+//@fn fastq::RecordSet::is_empty ret=r tags=C04
+//@spec
+        ensures
+            [C04|fastq.RecordSet.is_empty] r == (self.n() == 0),
+//@end
+}
+
+//@item fastq::RecordSetIter
+    impl<'a> RecordSetIter<'a> {
+        /// positions still to be handed out
+        #[verifier::prophetic]
+        spec fn rem(&self) -> Seq<&'a BufferPosition> { self.pos.remaining() }
+        #[verifier::prophetic]
+        spec fn iwf(&self) -> bool {
+            self.pos.obeys_prophetic_iter_laws()
+            && forall|i: int| 0 <= i < self.rem().len() ==> (#[trigger] self.rem()[i]).valid(self.buffer@)
+        }
+    }
+
+//@impl_open fastq::IntoIterator for &RecordSet::into_iter
+//@item fastq::IntoIterator for &RecordSet::Item
+//@item fastq::IntoIterator for &RecordSet::IntoIter
+    spec fn ii_pre(self) -> bool { self.wf() }
+//@fn fastq::IntoIterator for &RecordSet::into_iter ret=r tags=C04,C20,C13
+//@spec
+        ensures
+            [C04,C20|fastq.RecordSet.into_iter] r.iwf() && r.buffer@ == self.buffer@ && r.rem().len() == self.n()
+                && forall|i: int| 0 <= i < self.n() ==> *(#[trigger] r.rem()[i]) == self.buf_positions@[i],
+//@end
+}
+
+//@impl_open fastq::Iterator for RecordSetIter::next
+//@item fastq::Iterator for RecordSetIter::Item
+    #[verifier::prophetic]
+    spec fn it_pre(&self) -> bool { self.iwf() }
+//@fn fastq::Iterator for RecordSetIter::next ret=r tags=C04,C20,C06
+//@spec
+        ensures
+            [C20,C04|fastq.RecordSetIter.next.some] old(self).rem().len() > 0 ==> (r matches Some(rec) && rec.buf_pos == old(self).rem()[0] && rec.buffer@ == old(self).buffer@
+                && rec.rwf() && final(self).rem() == old(self).rem().drop_first()),
+            [C20|fastq.RecordSetIter.next.none_is_sticky] old(self).rem().len() == 0 ==> r is None && final(self).rem().len() == 0,
+            [C20,C06|fastq.RecordSetIter.next.frame] final(self).iwf() && final(self).buffer == old(self).buffer,
+//@closure 0 params="p: &'a BufferPosition" ret="(q: RefRecord<'a>)"
+            ensures q.buffer == self.buffer && q.buf_pos == p
+//@end
+}
 
     } // verus!
 }
